@@ -22,6 +22,26 @@ CLAIMED = {
             "of the stream; every load either raises or returns the written message.", "4 C10"),
     "C17": ("model_checking", "Arbitrary symbolic byte strings (and valid encodings with a symbolic truncation point, a symbolic corrupted byte, or a substituted wire type) are fed to parse; a strict "
             "spec decoder decides per path whether the input is malformed (must raise) or well-formed (must decode to the spec's view with well-typed fields, mismatching wire types kept as unknown).", "4 C17"),
+    "C04": ("model_checking", "to_dict / from_dict (both casings, classmethod and instance form) are executed on symbolic values: 64-bit ints as opaque decimal strings, bytes through an exact base64 "
+            "model, non-finite doubles by fork; z3 decides per path that the round trip reproduces the message and its bytes. json.dumps/loads are C: the text path runs at every path witness.", "4 C04"),
+    "C05": ("model_checking", "Key clause: for every proto identifier up to the bound, the emitted key is compared with protoc's ToJsonName and the reference's key is mapped back. Value clause: to_dict is "
+            "compared with a spec model of the canonical proto3 JSON mapping on every path, and the canonical object is fed back; json_format Parse/MessageToJson run at every witness in both directions.", "4 C05"),
+    "C06": ("model_checking", "Every field is put in {never set, default, non-default} through {constructor, attribute, parse, from_dict}; the emitted field numbers and the presence report after decoding are "
+            "compared on every path with the proto3 presence rules (spec encoder); HasField/WhichOneof of the reference at every witness.", "4 C06"),
+    "C07": ("model_checking", "Inductive step from an arbitrary state satisfying the representation invariant (pre-state written directly into the slots) for each of 8 operations, plus bounded histories "
+            "from a fresh message with environment-chosen operations; invariant and observable clause (which_one_of, AttributeError, wire, JSON) asserted after every step.", "4 C07"),
+    "C12": ("model_checking", "The real AsyncChannel runs on the real event loop; the schedule (which gated actor proceeds, cancellation point, whether the loop runs) is a tree of environment choices explored "
+            "exhaustively inside the bound, the buffer limit is a solver variable. Bounded exhaustive schedule exploration of the real code, solver prunes only.", "4 C12"),
+    "C13": ("model_checking", "Claimed in part: the reference/alias computation of compile/importing.py is executed on symbolic package paths (every character symbolic) and the resulting annotation and import "
+            "lines are interpreted by a model of Python's relative-import semantics; must denote the target module and class, also when two references coexist.", "4 C13"),
+    "C14": ("model_checking", "Messages built three ways with symbolic values; each observer (11 of them) and each of copy/deepcopy/pickle(__reduce__) is followed by a snapshot comparison "
+            "(bytes, presence report, oneof selection) decided by z3; mutation of deep copies must leave the original's snapshot unchanged.", "4 C14"),
+    "C15": ("model_checking", "The four conversion kernels are executed on mathematical integers (LIA back end): one symbolic microsecond count over the whole +-10000-year range and one symbolic UTC offset; "
+            "z3 proves (seconds, nanos) equal to the spec formulas and the decode identical. JSON strings (C code) are compared with the reference at witnesses and at boundary constants.", "4 C15"),
+    "C19": ("model_checking", "Every identifier [A-Za-z_][A-Za-z0-9_]* up to the bound is one symbolic string; the real casing functions run on it through a symbolic regex matcher driven by CPython's own "
+            "regex parse tree; identifier-ness, keyword-freeness, idempotence and key-maps-back are decided per path.", "4 C19"),
+    "C20": ("model_checking", "Enum definitions and field values are environment choices over boundary numbers (enum members are C ints, not solver variables): lookup identity, aliases, copy identity, "
+            "immutability, open values in five field positions through both codecs. The all-int32 claim for the enum wire codec is carried by C16.", "4 C20"),
     "C16": ("model_checking", "All integers of [-2**63, 2**64) and [-2**80, -2**63) and every decoder input of length <= 11 are decided by z3 on 12-80 paths per harness; "
             "per-kind single-field encodings are proved equal to an independent spec encoder that is checked against google.protobuf at each witness.", "4 C16"),
 }
